@@ -380,6 +380,23 @@ class Program:
                             if isinstance(m, (ast.Assign, ast.AugAssign)) and any(
                                     isinstance(t, ast.Name) and t.id == n.args[0].id for t in (m.targets if isinstance(m, ast.Assign) else [m.target])):
                                 delay_roots.append(m.value)
+            # the delay handed down as a parameter (a small "arm the timer" helper): what the callers pass
+            for n in list(delay_roots):
+                if isinstance(n, ast.Name) and n.id in f.params:
+                    idx = f.params.index(n.id) - (1 if f.params and f.params[0] == "self" else 0)
+                    for g in self.funcs.values():
+                        for c in ast.walk(g.node):
+                            if isinstance(c, ast.Call) and (isinstance(c.func, ast.Attribute) and c.func.attr == f.name
+                                                            or isinstance(c.func, ast.Name) and c.func.id == f.name):
+                                arg = c.args[idx] if 0 <= idx < len(c.args) else next((k.value for k in c.keywords if k.arg == n.id), None)
+                                if arg is None:
+                                    continue
+                                delay_roots.append(arg)
+                                if isinstance(arg, ast.Name):
+                                    for m in ast.walk(g.node):
+                                        if isinstance(m, (ast.Assign, ast.AugAssign)) and any(
+                                                isinstance(t, ast.Name) and t.id == arg.id for t in (m.targets if isinstance(m, ast.Assign) else [m.target])):
+                                            delay_roots.append(m.value)
             for root in delay_roots:
                 for c in ast.walk(root):
                     if isinstance(c, ast.Call):
